@@ -111,10 +111,25 @@ def ibm_options(case):
     return dict(age=True, module_state=True, **(dict(age_rate=0.0) if case["diffusion"] == 2.5 else {}))
 
 
+def tz_slice(case):
+    """One slice of the lattice writes start and stop as local times with a UTC offset of +02:00 (the same instants)."""
+    return case["dt"] == "iso" and case["optional"] == "empty" and not case["reference"]
+
+
+def offset_time(sec, native):
+    import datetime as _dt
+
+    if native:  # YAML timestamp / TOML offset date-time: read as an aware datetime
+        return _dt.datetime.fromtimestamp(sec, _dt.timezone(_dt.timedelta(hours=2)))
+    return world.iso(sec + 7200) + "+02:00"
+
+
 def render_v2(case, d, cols, outname, native_time=False):
     """Version-2 dictionary (rendered to YAML and to TOML)."""
     c = dict(version=2)
     c["time"] = dict(start=world.iso(S0), stop=world.iso(S0 + NSTEPS * DT), dt=dt_spelling(case["dt"]))
+    if tz_slice(case):
+        c["time"].update(start=offset_time(S0, native_time), stop=offset_time(S0 + NSTEPS * DT, native_time))
     if case["reference"]:
         import datetime as _dt
 
@@ -176,6 +191,8 @@ def render_v1(case, d, cols, outname):
     """Legacy version-1 dictionary, written from the v1 documentation / examples (not from configure_v1)."""
     c = {}
     c["time_control"] = dict(start_time=world.iso(S0), stop_time=world.iso(S0 + NSTEPS * DT))
+    if tz_slice(case):  # the legacy file quotes the times (strings with the offset)
+        c["time_control"] = dict(start_time=offset_time(S0, False), stop_time=offset_time(S0 + NSTEPS * DT, False))
     if case["reference"]:
         c["time_control"]["reference_time"] = ref_time(case)
     c["files"] = dict(particle_release_file=str(d / "r.rls"), output_file=str(d / outname))
